@@ -111,6 +111,33 @@ func c09RLWE(ctx *core.RunCtx) *c09Scheme {
 			}
 			return ev(e).Relinearize(a, o)
 		}},
+		{name: "GadgetProduct", op1: []int{vNone}, needDeg1: true, callerSetsMeta: true, deg: degOne, call: func(e any, a *rlwe.Ciphertext, b any, k int, o *rlwe.Ciphertext) error {
+			// polynomial x gadget ciphertext into a ciphertext that does not hold the polynomial
+			if o == a {
+				return fmt.Errorf("the output holds the input polynomial")
+			}
+			o.Resize(1, a.Level())
+			ev(e).GadgetProduct(a.Level(), a.Value[1], &cc.swk.GadgetCiphertext, o)
+			return nil
+		}},
+		{name: "AutomorphismHoisted", op1: []int{vNone}, ks: c09Rotations, needDeg1: true, deg: degOne, call: func(e any, a *rlwe.Ciphertext, b any, k int, o *rlwe.Ciphertext) error {
+			if !a.IsNTT {
+				return fmt.Errorf("hoisting works on the NTT representation")
+			}
+			x := ev(e)
+			x.DecomposeNTT(a.Level(), params.MaxLevelP(), params.PCount(), a.Value[1], a.IsNTT, x.BuffDecompQP)
+			return x.AutomorphismHoisted(a.Level(), a, x.BuffDecompQP, params.GaloisElement(k), o)
+		}},
+		{name: "GadgetProductHoisted", op1: []int{vNone}, needDeg1: true, callerSetsMeta: true, deg: degOne, call: func(e any, a *rlwe.Ciphertext, b any, k int, o *rlwe.Ciphertext) error {
+			if !a.IsNTT {
+				return fmt.Errorf("hoisting works on the NTT representation")
+			}
+			x := ev(e)
+			x.DecomposeNTT(a.Level(), params.MaxLevelP(), params.PCount(), a.Value[1], a.IsNTT, x.BuffDecompQP)
+			o.Resize(1, a.Level())
+			x.GadgetProductHoisted(a.Level(), x.BuffDecompQP, &cc.swk.GadgetCiphertext, o)
+			return nil
+		}},
 		{name: "Trace", op1: []int{vNone}, ks: logNs, needDeg1: true, deg: degOne, call: func(e any, a *rlwe.Ciphertext, b any, k int, o *rlwe.Ciphertext) error {
 			return ev(e).Trace(a, k, o)
 		}},
